@@ -73,11 +73,17 @@ class SQLLineageApp:
                     request_body_size = int(environ["CONTENT_LENGTH"])
                     request_body = environ["wsgi.input"].read(request_body_size)
                     payload = json.loads(request_body)
+                    root_path = Path(self.root_path).resolve()
                     for param in ["d", "f"]:
-                        if param in payload and not str(
-                            Path(payload[param]).absolute()
-                        ).startswith(str(Path(self.root_path).absolute())):
-                            return self.handle_403(start_response)
+                        if param in payload:
+                            # compare resolved paths so that ".." segments or a sibling directory sharing
+                            # the same name prefix can't escape root_path. d may be root_path itself while
+                            # f must be strictly inside, since /directory lists the parent of f
+                            path = Path(payload[param]).resolve()
+                            if root_path not in path.parents and (
+                                param == "f" or path != root_path
+                            ):
+                                return self.handle_403(start_response)
                     data = self.routes[path_info](payload)
                     return self.handle_200_json(start_response, data)
                 else:
